@@ -264,6 +264,17 @@ func openChain(kvs []kv, state cstate.LatestBlockState, last *types.Commit) (*dr
 	return d, nil
 }
 
+// clone copies the live chain: databases copied, pool cloned field by field (validated against replay).
+func (d *drv) clone() *drv {
+	c := &drv{db: restoreDB(dumpDB(d.db)), state: d.state, last: d.last}
+	c.store = cstate.NewStore(c.db)
+	c.app = newApp(c.db)
+	c.pool = evidence.VerifC19Clone(d.pool, c.store, c.db, c.app)
+	c.exec = cstate.NewBlockExecutor(c.store, quietLogger, c.pool, c.app)
+	c.exec.SetEventBus(sharedBus)
+	return c
+}
+
 // makeBlock fills the header the way BlockOperations.CreateProposalBlock does, with the given evidence.
 func (d *drv) makeBlock(ev []types.Evidence) (*types.Block, *types.PartSet) {
 	st := d.state
@@ -297,10 +308,18 @@ func (d *drv) commit(b *types.Block, ps *types.PartSet) error {
 	vals := d.state.Validators
 	sigs := make([]types.CommitSig, vals.Size())
 	base := genesisTime.Add(time.Duration(schedSec(h+1)) * time.Second)
+	// the validators sign in set order until they hold more than 2/3 of the power; the rest is absent
+	// (signature checks dominate the run time; the quorum is what VerifyCommit needs)
+	var signed int64
 	for i, v := range vals.Validators {
+		if signed*3 > vals.TotalVotingPower()*2 {
+			sigs[i] = types.NewCommitSigAbsent()
+			continue
+		}
 		w := whoOf(v.Address)
 		vote := mkVote(w, w, h, 1, kproto.PrecommitType, id, base.Add(time.Duration(i+1)*time.Millisecond), uint32(i), chainID)
 		sigs[i] = vote.CommitSig()
+		signed += v.VotingPower
 	}
 	seen := types.NewCommit(h, 1, id, sigs)
 	rawdb.WriteBlock(d.db, b, ps, seen)
